@@ -725,6 +725,24 @@ func isKnownPureExternal(fn *ssa.Function) bool {
 	if strings.HasPrefix(p, "github.com/sirupsen/logrus") {
 		return true
 	}
+	// cryptographic libraries: read-only on their inputs (results are fresh)
+	for _, pre := range []string{"github.com/btcsuite/btcd/btcec", "github.com/decred/dcrd/dcrec", "crypto/ecdsa", "crypto/elliptic", "crypto/sha512",
+		"lukechampine.com/blake3", "golang.org/x/crypto/ripemd160", "github.com/btcsuite/btcd/chaincfg/chainhash"} {
+		if strings.HasPrefix(p, pre) {
+			n := fn.Name()
+			if n == "Write" || n == "Read" || strings.HasPrefix(n, "Put") || n == "Reset" || n == "Sum" || strings.HasPrefix(n, "Set") {
+				return false
+			}
+			return true
+		}
+	}
+	if p == "github.com/holiman/uint256" || p == "math/big" {
+		switch fn.Name() {
+		case "Bytes20", "Bytes32", "Bytes", "CmpUint64", "String", "Hex", "Dec", "BitLen", "ByteLen", "Text", "IsUint64",
+			"LtUint64", "GtUint64", "Slt", "Sgt", "CmpBig", "Float64", "TrailingZeroBits", "Bit", "Format", "MarshalText", "MarshalJSON":
+			return true
+		}
+	}
 	return false
 }
 
